@@ -25,6 +25,9 @@ func cmdReplay(path string) int {
 		return 2
 	}
 	b := prepare(rf.Property, false)
+	if rf.Property == "C07" && strings.HasPrefix(rf.Phase, "lexer") {
+		b, _ = b.buildE5only()
+	}
 	if needsE5(rf.Property) && probe.Engine != "probe" {
 		ser, rc := b.buildE5()
 		if strings.HasPrefix(rf.Phase, "free") {
